@@ -339,7 +339,7 @@ pub trait SubCheck: Sync {
 
 /// `check.eval` under the crash guard (see crash.rs)
 pub fn guarded_eval<S: SubCheck>(run: &Run, check: &S, case: &S::Case, w: &mut Worker, counting: bool) -> Vec<Violation> {
-    if !check.crash_guard() {
+    if !check.crash_guard() || std::env::var_os("VERIF_NO_CRASH_GUARD").is_some() {
         return check.eval(run, case, w, counting);
     }
     crate::crash::install(run.prop);
